@@ -552,3 +552,228 @@ Theorem C09_whole_check_sound : forall thr P T im rows,
   Forall2 row_agrees (locate_whole (fun _ => thr) P T im) rows.
 Proof. exact check_whole_sound. Qed.
 Print Assumptions C09_whole_check_sound.
+
+(* ====================================================================================
+   ROUTE T FOR THE HEAD OF locate  (added; nothing above is changed)
+   Gen/locatehead.v is regenerated on every run of ./check C09 by tools/py2coq_locatehead.py from
+   the CURRENT text of trackpy/feature.py (locate, from its signature and defaults to the
+   `refined_coords = refine_com(...)` statement: py_locate_head) and trackpy/preprocessing.py
+   (invert_image, convert_to_int, scalefactor_to_gamut, scale_to_gamut), statement by statement,
+   over the vocabulary Model/PyLocatehead.v.  The generated head CALLS the other generated files by
+   name: Gen.preproc.py_bandpass, Gen.find.grey_dilation, Gen.refine.py_refine_com; py_locate is
+   the head followed by Gen.tail.py_locate_tail, the tail's parameters linked by name to the head's
+   variables.  Proofs/LocateheadGen.v proves them equal to the hand-written models.
+     np_img A              an ndarray: ImZ dtype image (integer array) | ImF a (float64 array)
+     squeeze_image         np.squeeze on a Model/Dilation.v image
+     locate_args           Model/LocatePipe2.v: validation of diameter / separation / smoothing_size / noise_size
+                           in source order, with locate's refusals and their messages
+     lparams_of, margin_of the parameters of Model/LocatePipe.v from the validated tuples; LocatePipe.margins
+     locate_py             = locate_args ; Model/LocatePipe.locate on the squeezed image
+     clipped dt im         image.clip(min=0) for a signed dtype, the image itself for an unsigned one
+     head_result           what the head hands on for an integer image (see (22))
+     py_engine NA nd e     e = 'python', or e = 'auto' where numba is absent or the image is not 2-D / 3-D
+     locate_agrees g m     g and m refuse with the same exception; or m's pipeline raises and g raises; or both
+                           return the same table (same index labels, same rows, ep entries equal as float64)
+   ==================================================================================== *)
+From Coq Require Import String.
+From TP Require Import Model.LocatePipe Model.StaticError Model.PyTail Model.PyLocatehead Model.LocatePipe2
+                       Gen.locatehead Proofs.LocateheadGen.
+From TP Require Model.PyPreproc Model.PyRefine Model.COMRefine Gen.find Gen.refine Gen.preproc Gen.tail.
+Open Scope Z_scope.
+
+(* (22) the generated head on an INTEGER image with preprocess=False, invert=False (any dtype, any arguments):
+   np.squeeze; the validation locate_args (a refusal is locate's ValueError with its message); then
+     image  = the squeezed image, negative pixels clipped when the dtype is signed
+     margin = LocatePipe.margins radius separation smoothing_size
+     coords = Gen.find.grey_dilation np_percentile false image separation percentile (Some margin) false
+     refined_coords = Gen.refine.py_refine_com NUMBA_AVAILABLE raw image (RTuple radius) coords max_iterations engine 0.6 characterize None
+   and scale_factor = 1, minmass None -> 0, pos_columns = default_pos_columns(ndim)  (head_result). *)
+Theorem C09_gen_head_is_model :
+  forall (A : Type) (F : float_ops A) np_percentile np_exp NUMBA_AVAILABLE dt im0 diameter minmass maxsize separation noise_size
+         smoothing_size threshold percentile topn max_iterations filter_after characterize engine,
+  py_locate_head F np_percentile np_exp NUMBA_AVAILABLE (ImZ dt im0) diameter minmass maxsize separation noise_size smoothing_size
+                 threshold false percentile topn false max_iterations None filter_after characterize engine =
+  rbind (locate_args (List.length (shape (squeeze_image im0))) diameter maxsize separation smoothing_size noise_size)
+        (fun V => head_result np_percentile NUMBA_AVAILABLE dt (squeeze_image im0) V minmass maxsize topn percentile
+                              max_iterations characterize engine).
+Proof. exact @head_int. Qed.
+Print Assumptions C09_gen_head_is_model.
+
+(* (23) preprocess=True, any image (integer or float): after the same validation the generated head calls the
+   GENERATED bandpass on the squeezed image with exactly the validated tuples -- lshort = noise_size,
+   llong = smoothing_size (default: diameter), threshold = the argument, else 1 for an integer and 1/255 for a
+   float image, truncate = bandpass's own default -- a ValueError of bandpass is locate's; its result goes
+   through convert_to_int (dtype of the raw image, uint8 for a float image), then margin, grey_dilation and
+   refine_com as in (22)  (head_rest). *)
+Theorem C09_gen_head_calls_bandpass :
+  forall (A : Type) (F : float_ops A) np_percentile np_exp NUMBA_AVAILABLE raw0 diameter minmass maxsize separation noise_size
+         smoothing_size threshold percentile topn max_iterations filter_after characterize engine,
+  let raw := np_squeeze F raw0 in
+  py_locate_head F np_percentile np_exp NUMBA_AVAILABLE raw0 diameter minmass maxsize separation noise_size smoothing_size
+                 threshold false percentile topn true max_iterations None filter_after characterize engine =
+  rbind (locate_args (List.length (img_shape F raw)) diameter maxsize separation smoothing_size noise_size) (fun V =>
+  rbind (of_bandpass (Gen.preproc.py_bandpass (fo_nd F) np_exp (img_as_float F raw) (img_pp_dtype raw)
+                        (PyPreproc.PySeq (a_noise V)) (PyPreproc.PySeq (a_smooth V))
+                        (Some (threshold_of raw threshold)) Gen.preproc.py_bandpass_default_truncate))
+        (fun image => head_rest F np_percentile NUMBA_AVAILABLE raw image V minmass maxsize topn percentile max_iterations
+                                characterize engine)).
+Proof. exact @head_preprocess. Qed.
+Print Assumptions C09_gen_head_calls_bandpass.
+
+(* (24) THE GENERATED WHOLE locate IS THE MODEL (partial: the pure-python engine).  For an integer image whose
+   dtype agrees with its content (an unsigned array has no negative entry), at least one axis after squeezing,
+   non-negative separations, preprocess=False, invert=False, engine 'python' (or 'auto' without numba):
+   py_locate -- generated head ; generated grey_dilation ; generated refine_com ; generated tail -- agrees
+   with locate_py = validation ; Model/LocatePipe.locate, the model C08_inside_image is stated about.
+   MISSING for the full statement: engine='numba' (LocatePipe.refine_one with l_numba = true; the generated
+   refine_com_arr is tied to the kernel model in C07 (13), (14) on nested arrays, not yet to LocatePipe's
+   refine_numba on [pix]), and float images (the refinement / tail models are integer models). *)
+Theorem C09_gen_locate_is_model_partial :
+  forall (A : Type) (F : float_ops A) np_percentile np_exp NUMBA_AVAILABLE sqrtf frame_no dt im0 diameter minmass maxsize
+         separation noise_size smoothing_size threshold percentile topn max_iterations filter_after characterize engine,
+  let im := squeeze_image im0 in
+  shape im <> [] -> dtype_ok dt im -> py_engine NUMBA_AVAILABLE (List.length (shape im)) engine ->
+  (forall V, locate_args (List.length (shape im)) diameter maxsize separation smoothing_size noise_size = ROk V ->
+             Forall (fun s => (0 <= s)%Q) (a_sep V)) ->
+  locate_agrees
+    (py_locate F np_percentile np_exp NUMBA_AVAILABLE sqrtf frame_no (ImZ dt im0) diameter minmass maxsize separation noise_size
+               smoothing_size threshold false percentile topn false max_iterations None filter_after characterize engine)
+    (locate_py (fun l => np_percentile l percentile) sqrtf false im0 diameter minmass maxsize separation noise_size
+               smoothing_size topn max_iterations characterize).
+Proof. exact @gen_locate_is_model. Qed.
+Print Assumptions C09_gen_locate_is_model_partial.
+
+(* (25) the generated head and the C09 model (Model/Equivariance.v): on a NON-NEGATIVE integer image the coords the
+   head computes are find_maxima, and the rows of refine_com's frame are the rows of locate_discrete, in order,
+   for P = lp_of V = (separation, LocatePipe.margins .., radius, 0.6, max_iterations, characterize) -- so theorems
+   (1)-(4), (9)-(12) speak about what the generated head computes. *)
+Theorem C09_gen_head_is_discrete_model :
+  forall (A : Type) (F : float_ops A) np_percentile np_exp NUMBA_AVAILABLE dt im0 diameter minmass maxsize separation noise_size
+         smoothing_size threshold percentile topn max_iterations filter_after characterize engine,
+  let im := squeeze_image im0 in
+  arr_nonneg (data im) = true -> py_engine NUMBA_AVAILABLE (List.length (shape im)) engine ->
+  (forall V, locate_args (List.length (shape im)) diameter maxsize separation smoothing_size noise_size = ROk V ->
+             Forall (fun s => (0 <= s)%Q) (a_sep V)) ->
+  py_locate_head F np_percentile np_exp NUMBA_AVAILABLE (ImZ dt im0) diameter minmass maxsize separation noise_size smoothing_size
+                 threshold false percentile topn false max_iterations None filter_after characterize engine =
+  rbind (locate_args (List.length (shape im)) diameter maxsize separation smoothing_size noise_size) (fun V =>
+    let P := lp_of V max_iterations characterize in
+    let nd := Z.of_nat (List.length (shape im)) in
+    ROk (PyRefine.mkFrame (COMRefine.com_columns (PyRefine.default_pos_columns nd) nd characterize (isotropic (lp_radius P))) None
+                          (map COMRefine.ref_row (locate_discrete (fun l => np_percentile l percentile) P im)),
+         a_sep V, PyRefine.default_pos_columns nd, 1%Q, match minmass with Some m => m | None => 0%Q end, maxsize, topn,
+         characterize, ImZ dt im, ImZ dt im, lp_radius P, List.length (shape im), a_noise V,
+         find_maxima (fun l => np_percentile l percentile) P im, lp_margin P)).
+Proof. exact @gen_head_discrete. Qed.
+Print Assumptions C09_gen_head_is_discrete_model.
+
+(* (26) theorem (3) for the GENERATED head: the same content at two places (premises of (3), with the margin and
+   radius the head itself derives from the arguments): both runs of the generated head succeed, and the rows of the
+   two frames refine_com returns are the rows (COMRefine.ref_row) of outputs that correspond one to one, every
+   position moved by exactly d and every other column identical. *)
+Theorem C09_gen_head_moved :
+  forall (A : Type) (F : float_ops A) (np_percentile : list Z -> Q -> Q) np_exp NUMBA_AVAILABLE percentile,
+    (forall l l', Permutation l l' -> np_percentile l percentile = np_percentile l' percentile) ->
+    (forall l, (forall v, In v l -> 0 <= v) -> (0 <= np_percentile l percentile)%Q) ->
+  forall d dt raw1 raw2 diameter minmass maxsize separation noise_size smoothing_size threshold topn max_iterations filter_after
+         characterize engine V,
+  let im1 := squeeze_image raw1 in
+  let im2 := squeeze_image raw2 in
+  let P := lp_of V max_iterations characterize in
+  locate_args (List.length (shape im1)) diameter maxsize separation smoothing_size noise_size = ROk V ->
+  Forall (fun s => (0 <= s)%Q) (a_sep V) -> List.length (a_sep V) = List.length (shape im1) ->
+  List.length (a_smooth V) = List.length (shape im1) ->
+  py_engine NUMBA_AVAILABLE (List.length (shape im1)) engine ->
+  arr_nonneg (data im1) = true -> arr_nonneg (data im2) = true ->
+  moved d im1 im2 -> List.length d = List.length (shape im1) ->
+  Forall (fun s => 1 <= s) (sizes_of im1 (lp_sep P)) ->
+  (forall p, 0 <= pix im1 p) ->
+  content_inside (lp_margin P) im1 -> content_inside (lp_margin P) im2 ->
+  content_has_room P d im1 im2 ->
+  exists r1 r2 outs1 outs2 rows,
+    py_locate_head F np_percentile np_exp NUMBA_AVAILABLE (ImZ dt raw1) diameter minmass maxsize separation noise_size smoothing_size
+                   threshold false percentile topn false max_iterations None filter_after characterize engine = ROk r1 /\
+    py_locate_head F np_percentile np_exp NUMBA_AVAILABLE (ImZ dt raw2) diameter minmass maxsize separation noise_size smoothing_size
+                   threshold false percentile topn false max_iterations None filter_after characterize engine = ROk r2 /\
+    PyRefine.of_rows (head_frame r1) = map COMRefine.ref_row outs1 /\
+    PyRefine.of_rows (head_frame r2) = map COMRefine.ref_row outs2 /\
+    Permutation outs2 rows /\ Forall2 (row_moved d) outs1 rows.
+Proof. exact @gen_head_moved. Qed.
+Print Assumptions C09_gen_head_moved.
+
+(* (27) convert_to_int / scale_to_gamut / invert_image as generated.  An integer image is returned as it is with
+   scale factor 1; a float image a (maximum vmax) is clipped at zero, scaled by iinfo(dtype).max / vmax (by 1 when
+   vmax = 0) and truncated to the dtype; scale_to_gamut (scale_factor None, or the factor convert_to_int reports)
+   is the image part of convert_to_int whenever vmax is not 0; invert_image XORs an integer image with the largest
+   value of its dtype and maps a float image v to 1 - v. *)
+Theorem C09_gen_convert_to_int_integer : forall (A : Type) (F : float_ops A) dt im dtype,
+  py_convert_to_int F (ImZ dt im) dtype = ROk (1%Q, ImZ dt im).
+Proof. exact @convert_to_int_integer. Qed.
+Print Assumptions C09_gen_convert_to_int_integer.
+
+Theorem C09_gen_convert_to_int_float : forall (A : Type) (F : float_ops A) a d vmax,
+  fo_max F a = Some vmax ->
+  py_convert_to_int F (ImF a) (DInt d) =
+  let sf := if Qeq_bool vmax 0 then 1%Q else (inject_Z (iinfo_max d) / vmax)%Q in
+  ROk (sf, ImZ d (fo_trunc F (PyPreproc.nd_map (fo_nd F) (fun v => (sf * v)%Q)
+                   (PyPreproc.nd_map (fo_nd F) (fun v => if Qle_bool 0 v then v else 0%Q) a)))).
+Proof. exact @convert_to_int_float. Qed.
+Print Assumptions C09_gen_convert_to_int_float.
+
+Theorem C09_gen_scale_to_gamut : forall (A : Type) (F : float_ops A) a d vmax,
+  fo_max F a = Some vmax -> Qeq_bool vmax 0 = false ->
+  exists sf x, py_convert_to_int F (ImF a) (DInt d) = ROk (sf, x) /\
+               py_scalefactor_to_gamut F (ImF a) (DInt d) = ROk sf /\
+               py_scale_to_gamut F (ImF a) (DInt d) None = ROk x /\
+               py_scale_to_gamut F (ImF a) (DInt d) (Some sf) = ROk x.
+Proof. exact @scale_to_gamut_is_convert_to_int. Qed.
+Print Assumptions C09_gen_scale_to_gamut.
+
+Theorem C09_gen_invert_image : forall (A : Type) (F : float_ops A),
+  (forall dt im, py_invert_image F (ImZ dt im) None =
+                 ROk (ImZ dt {| shape := shape im; data := arr_map (fun v => Z.lxor v (iinfo_max dt)) (data im) |})) /\
+  (forall a, py_invert_image F (ImF a) None = ROk (ImF (PyPreproc.nd_map (fo_nd F) (fun v => (1 - v)%Q) a))).
+Proof. intros A F. split; [exact (invert_image_integer F) | exact (invert_image_float F)]. Qed.
+Print Assumptions C09_gen_invert_image.
+
+(* (28) the keyword defaults of locate, convert_to_int, invert_image, scale_to_gamut as generated *)
+Theorem C09_gen_locate_defaults :
+  py_locate_default_minmass = None /\ py_locate_default_maxsize = None /\ py_locate_default_separation = None /\
+  py_locate_default_noise_size = PyPreproc.PyScalar 1%Q /\ py_locate_default_smoothing_size = None /\
+  py_locate_default_threshold = None /\ py_locate_default_invert = false /\ py_locate_default_percentile = 64%Q /\
+  py_locate_default_topn = None /\ py_locate_default_preprocess = true /\ py_locate_default_max_iterations = 10 /\
+  py_locate_default_filter_before = None /\ py_locate_default_filter_after = None /\
+  py_locate_default_characterize = true /\ py_locate_default_engine = "auto"%string /\
+  py_convert_to_int_default_dtype = np_uint8 /\ py_invert_image_default_max_value = None /\
+  py_scale_to_gamut_default_scale_factor = None.
+Proof. exact gen_locate_defaults. Qed.
+Print Assumptions C09_gen_locate_defaults.
+
+(* Non-vacuity of (24): the 14x15 uint8 canvas of the examples above, diameter 3, max_iterations 3, engine='python'
+   meets every premise; the generated whole locate (executed) returns one row with label 0 at (6, 7), mass 37,
+   position columns y, x and the column ep; an even diameter is refused with locate's message. *)
+Example C09_gen_premises_satisfiable :
+  shape (squeeze_image ex_im1) <> [] /\
+  dtype_ok (mkDT false 8) (squeeze_image ex_im1) /\
+  py_engine false (List.length (shape (squeeze_image ex_im1))) "python"%string /\
+  (forall V, locate_args (List.length (shape (squeeze_image ex_im1))) (PyPreproc.PyScalar 3) None None None
+                         (PyPreproc.PyScalar 1%Q) = ROk V -> Forall (fun s => (0 <= s)%Q) (a_sep V)).
+Proof. exact ex_gen_premises. Qed.
+
+Example C09_gen_locate_runs :
+  ex_run = py_locate fops2 (fun _ _ => 1 # 2) (fun _ => 0%Q) false (fun q => q) None (ImZ (mkDT false 8) ex_im1)
+                     (PyPreproc.PyScalar 3) None None None (PyPreproc.PyScalar 1%Q) None None false 64%Q None false 3 None None true
+                     "python"%string /\
+  match ex_run with
+  | ROk d => map (fun x => (fst (fst x), r_pos (snd (fst x)), r_mass (snd (fst x)))) (df_lines d) = [(0%nat, [222 # 37; 259 # 37]%Q, 37%Q)] /\
+             df_pos_columns d = ["y"%string; "x"%string] /\ df_ep_names d = ["ep"%string]
+  | RRaise _ => False
+  end.
+Proof. split; [reflexivity | exact ex_gen_runs]. Qed.
+
+Example C09_gen_locate_refuses_even_diameter :
+  ex_run_even = py_locate fops2 (fun _ _ => 1 # 2) (fun _ => 0%Q) false (fun q => q) None (ImZ (mkDT false 8) ex_im1)
+                          (PyPreproc.PySeq [3; 4]) None None None (PyPreproc.PyScalar 1%Q) None None false 64%Q None false 3 None None
+                          true "python"%string /\
+  ex_run_even = RRaise (EValueError "Feature diameter must be an odd integer. Round up.").
+Proof. split; [reflexivity | exact ex_gen_refuses]. Qed.
